@@ -191,7 +191,8 @@ HAND_LIBS = {
 #     symbols.update / classes.update, visibility lowered      / equations, extends modification args
 #   build_instance_tree: redeclare ShortClassDefinition        replacement class                          share:redeclare
 #     scope_class.find_class(argument.component)
-#   build_instance_tree: redeclare ComponentClause             type reference of the modification         share:redeclare
+#   build_instance_tree: redeclare ComponentClause             (the parser rejects `redeclare T x` in a modification: not reachable)
+#   redeclared package whose constants are read (Medium.rho)   replacement package and its constants      share:pkgredeclare
 #   build_instance_tree: loop over nested classes,             nested / short classes and their           share:shortclass
 #     class modifications (Voltage(nominal = 1000))            modifications
 #   build_instance_tree: find_class(sym.type); symbol edits    component type; class_modification,        hand:comp, share:comp
@@ -201,8 +202,8 @@ HAND_LIBS = {
 #   FunctionExpander: node.find_class(operator)                function classes                           share:funcs
 #   ConstantReferenceApplier -> ast._find_constant_symbol      the constant's Symbol itself (NOT copied;  share:constref
 #     (_find_class without copy)                               renamed and modified in place)
-#   ast._find_class: imports, self.imports[name] = ... cache   imports dict of the class where the        share:imports
-#                                                              lookup passes (enclosing class)
+#   ast._find_class: imports, self.imports[name] = ... cache   imports dict of the class where the        share:imports,
+#                                                              lookup passes (enclosing class)            share:imports2
 #   expand_connectors: find_class / flatten_class              connector classes                          share:conn
 #   enclosing-scope lookup through `parent`                    sibling / outer classes, shadowing         share:scope
 #
@@ -214,6 +215,7 @@ SHARE_CONSTREF = """
 package K
   constant Real c = 3;
   constant Real v[2] = {1, 2};
+  constant Real e = 2 * c;
   package Sub
     constant Real d = 4;
   end Sub;
@@ -244,7 +246,7 @@ end ReadsInComp;
 model ReadsArray
   Real a;
 equation
-  a = K.v[1] + K.c;
+  a = K.v[1] + K.c + K.e;
 end ReadsArray;
 
 model Inherits
@@ -328,6 +330,50 @@ model Wider
   Host h2;
   Fancy own;
 end Wider;
+"""
+
+SHARE_PKGREDECLARE = """
+package Water
+  constant Real rho = 1000;
+  constant Real cp = 4;
+end Water;
+
+package Oil
+  constant Real rho = 800;
+  constant Real cp = 2;
+end Oil;
+
+model Pipe
+  replaceable package Medium = Water;
+  parameter Real m = Medium.rho * 2;
+  Real h;
+equation
+  h = Medium.cp * m;
+end Pipe;
+
+model OilPipe
+  extends Pipe(redeclare package Medium = Oil);
+end OilPipe;
+
+model Plant
+  Pipe p1;
+  Pipe p2(redeclare package Medium = Oil);
+  OilPipe p3;
+  Real t;
+equation
+  t = p1.h + p2.h + p3.h;
+end Plant;
+
+model Direct
+  Real r;
+equation
+  r = Oil.rho + Water.cp;
+end Direct;
+
+model Local
+  package M2 = Oil;
+  extends Pipe(redeclare package Medium = M2);
+end Local;
 """
 
 SHARE_EXTENDS = """
@@ -505,8 +551,52 @@ model T
 end T;
 """
 
+SHARE_IMPORTS2 = """
+package Lib
+  model Mass
+    parameter Real m = 1;
+    Real f;
+  equation
+    f = m * 10;
+  end Mass;
+  package Deep
+    model Spring
+      parameter Real c = 5;
+      Real x;
+    equation
+      x = c;
+    end Spring;
+  end Deep;
+end Lib;
+
+package App2
+  import Lib.*;
+  import Lib.Deep.*;
+  model C
+    Mass m3(m = 7);
+    Spring s3;
+  end C;
+  model D
+    Spring s4(c = 8);
+    Mass m4;
+    C c;
+  end D;
+end App2;
+
+model R2
+  import Lib.Deep.*;
+  import Lib.*;
+  Mass m(m = 3);
+  Spring s2;
+  App2.C c;
+end R2;
+"""
+
 SHARE_FUNCS = """
+type Gain = Real(min = 0);
+
 package Fn
+  constant Real scale = 2;
   function inner_f
     input Real u;
     output Real y;
@@ -521,6 +611,21 @@ package Fn
   algorithm
     y := inner_f(u) + t;
   end outer_f;
+  function scaled
+    input Real u;
+    input Gain g = 2;
+    output Real y;
+  protected
+    Gain t(start = 1) = g;
+  algorithm
+    y := t * u * Fn.scale;
+  end scaled;
+  function more
+    extends inner_f;
+    input Real w;
+  algorithm
+    y := y + w;
+  end more;
 end Fn;
 
 function top_f
@@ -540,14 +645,14 @@ model M2
   M1 m;
   Real b;
 equation
-  b = Fn.inner_f(m.a);
+  b = Fn.inner_f(m.a) + Fn.scaled(m.a, 3);
 end M2;
 
 model M3
   extends M1;
   Real c;
 equation
-  c = Fn.outer_f(a);
+  c = Fn.outer_f(a) + Fn.more(a, 1);
 end M3;
 
 model M4
@@ -701,9 +806,11 @@ end Top;
 SHARE_LIBS = {
     "constref": SHARE_CONSTREF,
     "redeclare": SHARE_REDECLARE,
+    "pkgredeclare": SHARE_PKGREDECLARE,
     "extends": SHARE_EXTENDS,
     "shortclass": SHARE_SHORTCLASS,
     "imports": SHARE_IMPORTS,
+    "imports2": SHARE_IMPORTS2,
     "funcs": SHARE_FUNCS,
     "conn": SHARE_CONN,
     "scope": SHARE_SCOPE,
